@@ -1662,6 +1662,18 @@ WiringPortRef Wiring::add_unique_node(std::type_index def, NodeBuilder builder,
                                       std::span<const WiringInputRef> inputs,
                                       Value scalars) {
   auto add = [&]() -> WiringPortRef {
+    // Same passive-marker rule as add_node: a Passive-tagged source removes
+    // the receiving slot from this node's active list.
+    std::vector<std::size_t> passive_slots;
+    for (std::size_t slot = 0; slot < inputs.size(); ++slot) {
+      if (inputs[slot].source.arg_tag == WiringPortRef::ArgTag::Passive) {
+        passive_slots.push_back(slot);
+      }
+    }
+    if (!passive_slots.empty()) {
+      builder = builder.with_passive_inputs(
+          {passive_slots.data(), passive_slots.size()});
+    }
     builder.scalars(std::move(scalars));
 
     WiringInstance &instance = impl_->instances.emplace_back();
